@@ -51,6 +51,25 @@ static struct svb *mk_svb_n (unsigned int n)
 }
 #define mk_svb() mk_svb_n (CAP_N)
 
+/* raw memory for a container that is about to be constructed (all fields arbitrary) */
+static struct svb *mk_svb_raw (void)
+{
+  struct svb *s = malloc (sizeof (struct svb) + (unsigned long) CAP_N * ESZ);
+  __CPROVER_assume (s != 0);
+  return s;
+}
+
+/* a caller's contiguous range of foreign elements */
+static const Elem *mk_src_range (unsigned long *len)
+{
+  unsigned long n = nondet_ulong (), k = nondet_ulong (), m = nondet_ulong ();
+  __CPROVER_assume (n <= CFG_ALLOC_MAX_BOUND && k <= n && m <= n - k);
+  Elem *src = malloc (n * ESZ);
+  __CPROVER_assume (src != 0);
+  *len = m;
+  return src + k;
+}
+
 /* an element cell outside every container: a separate one-element object (live or not: by requires) */
 static Elem *mk_cell (void)
 {
